@@ -570,13 +570,15 @@ func (s *state) visitForRange(node *ast.ForNode) {
 
 	// besides the loop variable, keep the position and the number of iterations
 	// for the loop functions (index, isFirst, isLast).
+	// (the range arguments are outside the scope of the loop variable)
+	var limitExpr, initExpr, incrementExpr = s.block(limit), s.block(init), s.block(increment)
 	var varValue, varLimit, varIndex, varCount = s.scope.pushForRange(node.Var)
 	defer s.scope.pop()
-	s.jsln("var ", varLimit, " = ", limit, ";")
-	s.jsln("var ", varCount, " = Math.max(0, Math.ceil((", varLimit, " - (", init, ")) / (", increment, ")));")
-	s.jsln("for (var ", varValue, " = ", init, ", ", varIndex, " = 0; ",
+	s.jsln("var ", varLimit, " = ", limitExpr, ";")
+	s.jsln("var ", varCount, " = Math.max(0, Math.ceil((", varLimit, " - (", initExpr, ")) / (", incrementExpr, ")));")
+	s.jsln("for (var ", varValue, " = ", initExpr, ", ", varIndex, " = 0; ",
 		varValue, " < ", varLimit, "; ",
-		varValue, " += ", increment, ", ", varIndex, "++) {")
+		varValue, " += ", incrementExpr, ", ", varIndex, "++) {")
 	s.indentLevels++
 	s.walk(node.Body)
 	s.indentLevels--
@@ -584,12 +586,14 @@ func (s *state) visitForRange(node *ast.ForNode) {
 }
 
 func (s *state) visitForeach(node *ast.ForNode) {
+	// (the list expression is outside the scope of the loop variable)
+	var listExpr = s.block(node.List)
 	var itemData,
 		itemList,
 		itemListLen,
 		itemIndex = s.scope.pushForEach(node.Var)
 	defer s.scope.pop()
-	s.jsln("var ", itemList, " = ", node.List, ";")
+	s.jsln("var ", itemList, " = ", listExpr, ";")
 	s.jsln("var ", itemListLen, " = ", itemList, ".length;")
 	if node.IfEmpty != nil {
 		s.jsln("if (", itemListLen, " > 0) {")
